@@ -2,7 +2,7 @@
 
 spec: History (the law, the alphabets of the three kinds of object, the property that owns each read), HistoryMC (every history of
 <= MaxLen calls against an implementation that may remember; theorem ReadsAreIdeal under the invalidation discipline, violated by
-the two memo mutants), HistoryTrace (total monitor).
+the two memo mutants), HistoryProof (the same theorem for histories of any length, proved with TLAPS), HistoryTrace (total monitor).
 binding: spec -> code: every history TLC enumerates (quick: every history of <= 2 calls, every read / change / read triple, a seeded
 sample of the rest; thorough: every history of <= 3 calls and seeded walks to 7 calls) is replayed on a real JokerSamples / RVData /
 JokerPrior; at every read a fresh twin is built from pristine inputs, the content-changing calls are replayed on it and the two
@@ -23,6 +23,7 @@ def run(ctx, selftest=False):
                 "(kind, history, configuration); trivial = histories of one call")
     ctx.assumptions = ["TLC/SANY", "a fresh twin built through the public constructors from regenerated inputs is a valid oracle for the "
                        "content (the constructors themselves are the subject of C15 / C17 / C09)", "answers compared to rtol 1e-11"]
+    history.prove(ctx)
     n = 0
     for kind in ("samples", "data", "prior", "sampler"):
         n += history.check(ctx, kind, None, None, selftest=selftest and kind == "samples",
